@@ -20,7 +20,8 @@
         -> Z <id> <per party, in order: ok;<share>;<vv> | blame:<j> | abort> separated by blanks
      V <id> <q> <sharing> <dealer reads> <next sharing> <Q ids> <anchor> <zero sharing> <rnd1> <rnd2> <coefs (sharing,Q)> <coefs (zero,Q)> <dev> <mode> <delta>
         one redistribution step in which previous holder dev deviates: mode 0 = deals its contribution + delta
-        (consistent pieces), 1 = broadcasts a previous vector with first entry + delta, 2 = both
+        (consistent pieces), 1 = broadcasts a previous vector with first entry + delta, 2 = both,
+        3:<recipient>:<position> = adds delta to ONE component of the piece it sends to <recipient>
         -> V <id> <per next holder other than dev, in table order: <i>:ok | <i>:blame:<j> | <i>:abort> *)
 open Model
 open Helpers
@@ -148,7 +149,12 @@ let () =
          register w.w_sh quorum (coefs_of lam);
          register zsh quorum (coefs_of lamz);
          let rnd1 = rnd_of_text q r1 and rnd2 = rnd_of_text q r2 in
-         let devid = z_of_id dev and d = z_of_hex delta and md = int_of_string mode in
+         let devid = z_of_id dev and d = z_of_hex delta in
+         (* mode 0|1|2, or 3:<recipient>:<position> = component <position> of the piece for <recipient> + delta *)
+         let (md, prc, ppos) = (match String.split_on_char ':' mode with
+             | [m] -> (int_of_string m, Big_int_Z.zero_big_int, 0)
+             | [m; rc; ps] -> (int_of_string m, z_of_id rc, int_of_string ps)
+             | _ -> failwith "bad mode") in
          let anch = z_of_id anchor in
          let eq = Big_int_Z.eq_big_int in
          (match hjky_cols k zsh rnd1 with
@@ -170,7 +176,9 @@ let () =
                         let pvv = if md = 1 || md = 2 then bump b.b_prevvv else b.b_prevvv in
                         { m_from = m.m_from;
                           m_b = { b_prev = b.b_prev; b_prevvv = pvv; b_zerovv = b.b_zerovv; b_nextvv = nvv };
-                          m_piece = if md = 0 || md = 2 then share_of k nsh nvv i else m.m_piece }
+                          m_piece = if md = 0 || md = 2 then share_of k nsh nvv i
+                            else if md = 3 && eq i prc then List.mapi (fun n x -> if n = ppos then k.fadd x d else x) m.m_piece
+                            else m.m_piece }
                       end else m) inbox in
                   let own = if isprev then (let (_, c) = List.assoc i cols in Some (share_of k nsh c i, c)) else None in
                   let own_t = if isprev then Some ((w.w_sh, w.w_vv), snd (List.assoc i zres)) else None in
